@@ -3,7 +3,7 @@
    Model: Model/C20Threads.v (chunking of both call sites, small-step interleaving semantics, scratch split).
    All statements hold for EVERY item count >= 1 and thread count >= 1 (threads not dividing / exceeding the items
    included); items = 0 or threads = 0 make the Rust code panic (chunks_mut(0), division by zero): stated as guards. *)
-From PV Require Import Base.MachineInt Model.C20Threads Proofs.C20Partition Proofs.C20Sched Proofs.C20Scratch Gen.C20_gen.
+From PV Require Import Base.MachineInt Model.C20Threads Proofs.C20Partition Proofs.C20Sched Proofs.C20Scratch Proofs.C20Forced Gen.C20_gen.
 From Coq Require Import Arith PeanoNat Permutation.
 Local Open Scope nat_scope.
 
@@ -213,6 +213,44 @@ Theorem C20_each_item_once_prepare :
 Proof. exact prepare_each_item_once. Qed.
 Print Assumptions C20_each_item_once_prepare.
 
+(* ---- the schedules FORCED on the implementation through the yield hook (harness feature c20hook: a turn-based
+        scheduler, policy number + random stream carried by the record, Model forced_sched) are complete executions of the
+        small-step system, for EVERY policy number and stream: each forced record is an instance of the schedules
+        quantified over by C20_any_schedule_eq_sequential / C20_each_item_once / C20_tail_zeroed ---- *)
+Theorem C20_forced_schedule_is_execution :
+  forall (V Sc : Type) (g : nat -> Sc -> V * Sc) (policy : Z) (rs : list Z) (w : list (list item))
+         (init : nat -> V) (scr0 : nat -> Sc),
+    exists st, run_mt V Sc g (Some w) init scr0 (forced_sched policy rs w) = Some st.
+Proof. exact forced_sched_complete. Qed.
+Print Assumptions C20_forced_schedule_is_execution.
+
+Theorem C20_forced_schedule_eval :
+  forall (V Sc : Type) (g : nat -> Sc -> V * Sc) (f : nat -> V),
+    (forall i s, fst (g i s) = f i) ->
+    forall (zero : V) (policy : Z) (rs : list Z) (threads out_len output_size : nat) (init : nat -> V) (scr0 : nat -> Sc),
+      1 <= threads -> 1 <= output_size <= out_len ->
+      exists w st o,
+        eval_work threads output_size = Some w /\
+        run_mt V Sc g (Some w) init scr0 (forced_sched policy rs w) = Some st /\
+        eval_mt V Sc g zero threads out_len output_size init scr0 (forced_sched policy rs w) = Some o /\
+        forall j, o j = if j <? output_size then f j else if j <? out_len then zero else init j.
+Proof. exact eval_forced. Qed.
+Print Assumptions C20_forced_schedule_eval.
+
+Theorem C20_forced_schedule_prepare :
+  forall (V Sc : Type) (g : nat -> Sc -> V * Sc) (f : nat -> V),
+    (forall i s, fst (g i s) = f i) ->
+    forall (zero : V) (policy : Z) (rs : list Z) (threads bits bit_start bit_count : nat) (init : nat -> V) (scr0 : nat -> Sc),
+      1 <= threads -> 1 <= bit_count -> bit_start + bit_count <= bits ->
+      exists w st o,
+        prepare_work threads bits bit_start bit_count = Some w /\
+        run_mt V Sc g (Some w) init scr0 (forced_sched policy rs w) = Some st /\
+        prepare_mt V Sc g zero threads bits bit_start bit_count init scr0 (forced_sched policy rs w) = Some o /\
+        forall j, o j = if (bit_start <=? j) && (j <? bit_start + bit_count) then f j
+                        else if j <? bits then zero else init j.
+Proof. exact prepare_forced. Qed.
+Print Assumptions C20_forced_schedule_prepare.
+
 (* ---- the hypotheses are satisfiable: concrete non-trivial instances ---- *)
 (* threads does not divide items *)
 Example C20_ex_chunks_32_5 :
@@ -246,3 +284,9 @@ Proof. vm_compute. reflexivity. Qed.
 (* the alignment constant of the model is the one in /repo/poulpy-hal/src/lib.rs (regenerated on every run) *)
 Example C20_ex_align_matches_source : DEFAULTALIGN = DEFAULTALIGN_src.
 Proof. reflexivity. Qed.
+(* the eight policies on 7 items / 3 workers (chunks [0,1,2] [3,4,5] [6]) with one random stream: eight different schedules *)
+Example C20_ex_forced :
+  option_map (fun w => map (fun pol => forced_sched pol [5; 12; 7; 3; 9; 22; 13]%Z w) [0; 1; 2; 3; 4; 5; 6; 7]%Z) (eval_work 3 7)
+  = Some [[0; 0; 0; 1; 1; 1; 2]; [2; 1; 1; 1; 0; 0; 0]; [0; 1; 2; 0; 1; 0; 1]; [2; 1; 0; 1; 0; 1; 0];
+          [2; 0; 0; 0; 1; 1; 1]; [2; 0; 1; 1; 1; 0; 0]; [2; 0; 1; 0; 1; 0; 1]; [1; 0; 0; 0; 1; 1; 2]].
+Proof. vm_compute. reflexivity. Qed.
